@@ -11,6 +11,7 @@ type moduleSnap struct {
 	mut     float64
 	enabled bool
 	ctrlId  int
+	traitId int // id of the control node's trait, 0 for none
 	atype   neatmath.NodeActivationType
 	inIds   []int
 	outIds  []int
@@ -22,6 +23,9 @@ func snapModules(g *Genome) []moduleSnap {
 	var out []moduleSnap
 	for _, cg := range g.ControlGenes {
 		m := moduleSnap{innov: cg.InnovationNum, mut: cg.MutationNum, enabled: cg.IsEnabled, ctrlId: cg.ControlNode.Id, atype: cg.ControlNode.ActivationType}
+		if cg.ControlNode.Trait != nil {
+			m.traitId = cg.ControlNode.Trait.Id
+		}
 		for _, l := range cg.ControlNode.Incoming {
 			m.inIds = append(m.inIds, l.InNode.Id)
 			m.inW = append(m.inW, l.ConnectionWeight)
@@ -42,7 +46,7 @@ func sameModules(a, b []moduleSnap) bool {
 	r := true
 	for i := range a {
 		x, y := a[i], b[i]
-		if x.ctrlId != y.ctrlId || x.atype != y.atype || len(x.inIds) != len(y.inIds) || len(x.outIds) != len(y.outIds) {
+		if x.ctrlId != y.ctrlId || x.traitId != y.traitId || x.atype != y.atype || len(x.inIds) != len(y.inIds) || len(x.outIds) != len(y.outIds) {
 			return false
 		}
 		r = vAnd(r, vAnd(x.innov == y.innov, vAnd(x.mut == y.mut, x.enabled == y.enabled)))
@@ -66,6 +70,13 @@ func sameModules(a, b []moduleSnap) bool {
 func moduleLinksOwn(g *Genome) bool {
 	ok := true
 	for _, cg := range g.ControlGenes {
+		if t := cg.ControlNode.Trait; t != nil {
+			own := false
+			for _, gt := range g.Traits {
+				own = own || gt == t
+			}
+			ok = ok && own
+		}
 		for _, l := range cg.ControlNode.Incoming {
 			ok = ok && g.NodeWithId(l.InNode.Id) == l.InNode && l.OutNode == cg.ControlNode
 		}
@@ -86,6 +97,9 @@ func c06AddModule(g *Genome) {
 		ctrl.AddIncoming(g.Nodes[1], 1.0)
 	}
 	ctrl.AddOutgoing(g.Nodes[2], 1.0)
+	if len(g.Traits) > 0 && vChoice("module.controlNodeTrait", 2) == 1 {
+		ctrl.Trait = g.Traits[0] // a control node may carry one of the genome's traits like any other node
+	}
 	innov := vInt("module.innov")
 	vAssume(vAnd(innov > 0, innov <= tMaxInnov))
 	m := vFloat("module.mut")
@@ -154,7 +168,7 @@ func vc06(c tmplCfg, module bool, mutations int) {
 	vAssert(sameTraits(s0, s1), "copy has the same traits")
 	vAssert(sameGenes(s0, s1), "copy has the same genes (endpoints, weight, innovation and mutation number, recurrence and enabled flags, trait)")
 	vAssert(sameModules(m0, snapModules(d)), "copy has the same modules")
-	vAssert(moduleLinksOwn(d), "module links of the copy are wired to the copy's own nodes")
+	vAssert(moduleLinksOwn(d), "module links of the copy are wired to the copy's own nodes, and a control node's trait is the copy's own")
 	wfCheck(d, "copy")
 	disjoint := vDisjoint(g, d)
 	if mutations > 0 {
@@ -174,6 +188,10 @@ func vc06(c tmplCfg, module bool, mutations int) {
 
 func VC06_Duplicate_Quick() {
 	vc06(tmplCfg{outputs: 1, hidden: 1, genes: 2, traits: 2, nilTraits: true, params: 1, symRecur: true, symEnable: true}, false, 0)
+}
+// a trait with more parameters than the library's own default of eight: a copy has all of them
+func VC06_DuplicateLongTrait() {
+	vc06(tmplCfg{outputs: 1, hidden: 0, genes: 1, traits: 1, params: 9, symRecur: false, symEnable: true, fixedBase: true}, false, 0)
 }
 func VC06_DuplicateModule_Quick() {
 	vc06(tmplCfg{outputs: 1, hidden: 0, genes: 1, traits: 1, params: 1, symRecur: true, symEnable: true, fixedBase: true}, true, 0)
